@@ -25,6 +25,9 @@ type anchorFile struct {
 	// Shapes: pkg → name → parameter and result types without parameter names, in order ("ordered") and as sorted
 	// multisets ("unordered") — the fallbacks for a rename that also renames or reorders parameters
 	Shapes map[string]map[string][2]string `json:"shapes"`
+	// Patterns: pkg → name → pattern text of a package-level *regexp.Regexp (several variables share that type, the
+	// text tells a renamed one apart)
+	Patterns map[string]map[string]string `json:"patterns"`
 }
 
 // sigShapes renders a signature without parameter names: in order, and with the parameter types sorted.
@@ -74,7 +77,7 @@ func LoadAnchors(vdir string) {
 
 // WriteAnchors records the anchors of the loaded tree.
 func WriteAnchors(e *Env, vdir string) error {
-	a := anchorFile{Funcs: map[string]map[string]string{}, Vars: map[string]map[string]string{}, Shapes: map[string]map[string][2]string{}}
+	a := anchorFile{Funcs: map[string]map[string]string{}, Vars: map[string]map[string]string{}, Shapes: map[string]map[string][2]string{}, Patterns: map[string]map[string]string{}}
 	for name, sp := range e.P.ByName {
 		a.Funcs[name], a.Vars[name], a.Shapes[name] = map[string]string{}, map[string]string{}, map[string][2]string{}
 		for mn, m := range sp.Members {
@@ -87,6 +90,12 @@ func WriteAnchors(e *Env, vdir string) error {
 				}
 			case *ssa.Global:
 				a.Vars[name][mn] = types.TypeString(x.Type(), qual)
+				if pat, ok := e.C.PatternOfGlobal(x); ok {
+					if a.Patterns[name] == nil {
+						a.Patterns[name] = map[string]string{}
+					}
+					a.Patterns[name][mn] = pat
+				}
 			}
 		}
 	}
@@ -244,6 +253,18 @@ func (e *Env) renamedVar(pkg, name string) *ssa.Global {
 	}
 	if len(cands) == 1 {
 		return sp.Var(cands[0])
+	}
+	// several candidates of the same type: a regular expression is told apart by its pattern text
+	if want, ok := anchors.Patterns[pkg][name]; ok && len(cands) > 1 {
+		var hit []string
+		for _, c := range cands {
+			if pat, ok := e.C.PatternOfGlobal(sp.Var(c)); ok && pat == want {
+				hit = append(hit, c)
+			}
+		}
+		if len(hit) == 1 {
+			return sp.Var(hit[0])
+		}
 	}
 	return nil
 }
